@@ -476,6 +476,8 @@ func (c *Ctx) NameBookkeeping(ob *core.Obligation) {
 						ob.Fail(key, c.P.Pos(x.Pos()), "the declaration recorded for the use is not the one found by the lookup")
 					case !isFieldLoadOf(lk.Index, x.Key, "Name"):
 						ob.Fail(key, c.P.Pos(x.Pos()), "the resolution is recorded under a node other than the one whose name was looked up")
+					case leavesUnresolved(fn, lk, b):
+						ob.Fail(key, c.P.Pos(x.Pos()), "after its name was found among the declarations, a use can leave the checker without the resolution having been recorded (an early return comes first): hover and go-to-definition then find nothing for that use")
 					default:
 						ob.Pass(key, c.P.Pos(x.Pos()), "use -> declaration recorded on the hit edge, for the node whose own name was looked up")
 					}
@@ -508,6 +510,38 @@ func fieldStoredInto(al *ssa.Alloc, name string) ssa.Value {
 		}
 	}
 	return nil
+}
+
+// leavesUnresolved: from the edge on which the lookup succeeded, some return is reachable
+// without passing the block that records the resolution.
+func leavesUnresolved(fn *ssa.Function, lk *ssa.Lookup, rec *ssa.BasicBlock) bool {
+	var hit *ssa.BasicBlock
+	if lk.Referrers() != nil {
+		for _, r := range *lk.Referrers() {
+			ex, ok := r.(*ssa.Extract)
+			if !ok || ex.Index != 1 || ex.Referrers() == nil {
+				continue
+			}
+			for _, r2 := range *ex.Referrers() {
+				if iff, ok := r2.(*ssa.If); ok {
+					hit = iff.Block().Succs[0]
+				}
+			}
+		}
+	}
+	if hit == nil {
+		return false
+	}
+	avoid := map[*ssa.BasicBlock]bool{rec: true}
+	for _, ret := range core.Returns(fn) {
+		if ret.Block() == rec {
+			continue
+		}
+		if hit.Dominates(ret.Block()) && core.ReachableAvoiding(hit, ret.Block(), avoid) {
+			return true
+		}
+	}
+	return false
 }
 
 func extractOf(v ssa.Value, lk *ssa.Lookup) bool {
